@@ -1,9 +1,15 @@
 import Proofs.C16.Table
-/-! C16 — kernel evaluation of the reflective checker: zone 0, instances 0..6, every prefix. -/
+import Proofs.C16.Block
+import Proofs.C16.Tab.All
+/-! C16 — kernel evaluation of the reflective checker: zone 0, instances 0..`Tab.N`, every prefix,
+cut into blocks between literal generator states (`Proofs/C16/Tab/*`, written by
+`bin/c16_gen_blocks.lean` from the MODEL; a wrong literal makes the `decide +kernel` obligation of its
+two neighbouring blocks fail, so nothing about the literals is trusted). -/
 namespace PfC16
 open C16
 
 set_option maxRecDepth 1000000 in
-theorem table_zone0 : checkZone0 6 = true := by decide +kernel
+theorem table_zone0 : checkZone0 Tab.N = true :=
+  checkZone0_of_run (by decide +kernel) Tab.run_all Tab.absent
 
 end PfC16
